@@ -295,6 +295,29 @@ func (c *Ctx) retryHandleOf(a *retryAnchors, v ssa.Value) (wrapped bool, src ssa
 	if call, ok := v.(*ssa.Call); ok && a.WithReqCtx != nil && c.StaticCalleeOf(&call.Call) == a.WithReqCtx && len(call.Call.Args) == 2 {
 		wrapped = true
 		v = c.Resolve(call.Call.Args[1])
+		if _, isFn := v.Type().Underlying().(*types.Signature); !isFn {
+			// the wrapper is given the error itself and its closure invokes the error's Retry method
+			for _, w := range a.WithReqCtx.AnonFuncs {
+				if bc := c.boundingClosure(a, w); bc != nil && bc.ViaErr && c.Resolve(bc.Invoke.Call.Value) == ssa.Value(a.WithReqCtx.Params[1]) {
+					return true, c.errOrigin(v), nil
+				}
+			}
+			return false, nil, nil
+		}
+	}
+	if !wrapped {
+		// the bounding closure written out where the handle is queued
+		if fn, mc := c.closureOf(v); fn != nil && mc != nil {
+			if bc := c.boundingClosure(a, fn); bc != nil {
+				if h := c.boundHandle(bc, mc); h != nil {
+					if bc.ViaErr {
+						return true, c.errOrigin(c.Resolve(h)), nil
+					}
+					wrapped = true
+					v = c.Resolve(h)
+				}
+			}
+		}
 	}
 	if recv, name, ok := c.boundMethodOf(v); ok && name == "Retry" {
 		return wrapped, c.errOrigin(recv), nil
